@@ -18,6 +18,7 @@ func ZZ_C20_Provider() {
 	s := NewSelfManagedProvider(NewSelfManagedConfig())(c)().(*SelfManaged)
 	self := actor.NewPID("node:0", "provider/m0")
 	s.pid = self
+	prov := ze.Register("provider/m0") // records what is sent to the provider's PID; the harness hands it to Receive
 	// what Started does before touching the network
 	s.members.Add(c.Member())
 	uni := zzUniverse(c.Member(), U)
@@ -83,7 +84,20 @@ func ZZ_C20_Provider() {
 				zzrt.Reach("unreachable-member")
 				mustTell = true
 			}
-			deliver(memberLeave{ListenAddr: addr}, nil)
+			// the report arrives the way it does in production: the provider's event-stream child receives the
+			// engine's RemoteUnreachableEvent and turns it into a message to the provider
+			provBefore := len(prov.Got)
+			func() {
+				defer func() {
+					if v := recover(); v != nil {
+						escaped = true
+					}
+				}()
+				s.handleEventStream(actor.ZZContext(ze.E, actor.NewPID("node:0", "provider/m0/event"), actor.RemoteUnreachableEvent{ListenAddr: addr}, nil))
+			}()
+			for _, g := range prov.Got[provBefore:] {
+				deliver(g.Msg, g.Sender)
+			}
 			if i < U {
 				in[i] = false
 			}
